@@ -302,7 +302,7 @@ Proof.
     assert (G0 : gains (clear_events s) y x) by (destruct G as [d Hd]; exists d; exact Hd).
     destruct (flow_handle _ _ _ _ H G0) as [R|(from & hash & receiver & amount & -> & ->)]; [left; exact R|right; exists from, hash, receiver, amount; split; reflexivity].
   - (* governance moves no coins *)
-    exfalso. injection Hstep as <-. eapply (gains_bank s _ x); [|exact G].
+    exfalso. destruct (forallb pchange_valid _); [|discriminate]. injection Hstep as <-. eapply (gains_bank s _ x); [|exact G].
     apply (fold_left_inv (fun y => bank y = bank s)); [|reflexivity]. intros y c Hy. pose proof (apply_pchange_keeps y c). rewrite <- Hy. keeps_solve.
   - (* end-of-block: settlements and refunds *)
     left. destruct (end_block _) as [y| |] eqn:H; try discriminate. injection Hstep as <-.
